@@ -3,7 +3,7 @@ import itertools
 from props.common import *
 
 K = lambda k: {"t": "key", "k": k}
-IND = {"a": "x", "b": "y", "c": "z", "d": "q", "e": "w"}        # individual outputs (distinct, otherwise unused)
+IND = {"a": "x", "b": "y", "c": "z", "d": "q", "e": "w", "f": "v"}        # individual outputs (distinct, otherwise unused)
 CHO = ["1", "2", "3", "4"]                                       # chord outputs
 
 
@@ -64,7 +64,18 @@ def episodes(rng, keys, n_episodes, gaps, settle):
     s = []
     for _ in range(n_episodes):
         s += rand_history(rng, keys, rng.randint(2, 8), gaps, release_all=True, tail=settle)
-    return s
+    # at most three inputs between two ticks (a longer burst only lengthens the queue the release waits in)
+    out, run = [], 0
+    for st in s:
+        if st[0] == "t":
+            run = 0
+        else:
+            run += 1
+            if run > 3:
+                out.append(["t", 1])
+                run = 1
+        out.append(st)
+    return out
 
 
 def family(tier):
@@ -150,6 +161,8 @@ CONSTANT RGaps = {%(rgaps)s}
 CONSTANT Other = {%(other)s}
 CONSTANT MinSize = %(minsize)d
 CONSTANT AllRel = %(allrel)s
+CONSTANT Pre <- PreDef
+CONSTANT Post <- PostDef
 CONSTANT TailT = %(tail)d
 INIT Init
 NEXT Next
@@ -157,11 +170,12 @@ CHECK_DEADLOCK FALSE
 """
 
 
-def enumerate_schedules(wd, name, keys, gaps, hold, rgaps, other=(), minsize=1, tail=40, allrel=True):
+def enumerate_schedules(wd, name, keys, gaps, hold, rgaps, other=(), minsize=1, tail=40, allrel=True, pre=(), post=()):
     """TLC enumerates Sched_C09 for the constants and prints every schedule; returns the scripts."""
     mod = "MC_Sched_" + name
     with open(os.path.join(wd, mod + ".tla"), "w") as f:
-        f.write("---- MODULE %s ----\nEXTENDS Sched_C09\n====\n" % mod)
+        f.write("---- MODULE %s ----\nEXTENDS Sched_C09\nPreDef == %s\nPostDef == %s\n====\n" % (
+            mod, tla_val([list(x) for x in pre]), tla_val([list(x) for x in post])))
     with open(os.path.join(wd, mod + ".cfg"), "w") as f:
         f.write(SCHED_CFG % dict(keys=", ".join(map(str, keys)), gaps=", ".join(map(str, gaps)),
                                  hold=", ".join(map(str, hold)), rgaps=", ".join(map(str, rgaps)),
@@ -191,6 +205,11 @@ def schedule_family(tier):
         ("s_v2_uni", make_v2([(("a", "b"), T, "all", [], "+r"), (("b", "c"), T, "first", [], "s")], "abc"),
          dict(keys=[c("a"), c("b"), c("c")], gaps=g3, hold=[6], rgaps=[0, 2])),
     ]
+    # a chord disabled on the held layer that is a strict sub-chord of two enabled chords; a foreign key at every position
+    F.append(("s_v2_dis", make_v2([(("a", "b"), T, "all", [1], None), (("a", "b", "c"), T, "all", [], None),
+                                    (("a", "b", "e"), T, "first", [], None)], "abcef", lkey="d"),
+              dict(keys=[c("a"), c("b")], gaps=[0, 1], hold=[6], rgaps=[0], other=[c("f")], minsize=2,
+                   pre=[["d", c("d")], ["t", 25]], post=[["t", 10], ["u", c("d")]])))
     if tier != "quick":
         g4 = [0, T + 1]
         F += [
